@@ -484,7 +484,11 @@ def _full_history_job(base, descs):
 
 def _run(ch, ctx, srv, F, H):
     n_calls = 5 + ch.draw(56 if ctx.tier == "thorough" else 30)
-    descs = [H.next_desc() for _ in range(n_calls)]
+    ch.mark_count()
+    descs = []
+    for _ in range(n_calls):
+        ch.mark()
+        descs.append(H.next_desc())
     parsed_into = {d["out"]: d["into"] for d in descs if d["op"] == "parse" and d.get("out") and d.get("into")}
     # The history runs in its OWN fresh process (one fork per run), never in this worker:
     # state leaked by earlier runs of the worker would make a violation irreproducible
